@@ -32,3 +32,31 @@ func (p *P2P) VerifAttach(c net.Conn, outgoing bool) (*Connection, error) {
 	conn := NewConnection(c, outgoing)
 	return conn, p.handleConnection(conn, true)
 }
+
+// VerifSetListener installs a listener created by the caller (an ephemeral loopback port instead of the fixed
+// 0.0.0.0:port of ListenServer). Must be called before any goroutine of this P2P value is started.
+func (p *P2P) VerifSetListener(l net.Listener) {
+	p.listener = l
+	p.BindPort = uint16(l.Addr().(*net.TCPAddr).Port)
+}
+
+// VerifAcceptLoop is the accept loop of ListenServer over the installed listener: every accepted TCP
+// connection becomes an incoming Connection handed to handleConnection.
+func (p *P2P) VerifAcceptLoop(private bool) {
+	for {
+		c, err := p.listener.Accept()
+		if err != nil {
+			return
+		}
+		err = p.handleConnection(NewConnection(c, false), private)
+		if err != nil {
+			Log.Debug("P2P server connection error:", err)
+		}
+	}
+}
+
+// VerifAttachConn hands an established TCP connection to handleConnection, as ListenServer (outgoing = false) and
+// startClient (outgoing = true) do after accept / dial.
+func (p *P2P) VerifAttachConn(c net.Conn, outgoing, private bool) error {
+	return p.handleConnection(NewConnection(c, outgoing), private)
+}
